@@ -10,9 +10,27 @@ import (
 func genC16(r *Rand, tier string) *Case {
 	c := &Case{Server: ServerCfg{Limit: 4096}, Programs: map[string]*Program{}}
 	nconn := r.Range(1, 3)
+	auth := r.Chance(1, 4)
+	if auth {
+		c.Server.Auth = "cleartext"
+	}
 	for i := 0; i < nconn; i++ {
 		var steps []Step
 		steps = append(steps, Step{Msgs: []pgwire.FMsg{startupMsg(fmt.Sprintf("u%d", i), "d")}})
+		if auth {
+			c.Server.Validator = append(c.Server.Validator, AuthEntry{DB: "d", User: fmt.Sprintf("u%d", i), PW: "pw", Out: "accept"})
+			if r.Chance(1, 3) {
+				// an unauthenticated peer that goes silent at the password prompt
+				// (or in the middle of its password message): merely being read from
+				cc := ConnCase{Steps: steps, NoEOF: true}
+				if r.Bool() {
+					cc.Steps = append(cc.Steps, Step{Msgs: []pgwire.FMsg{{K: "p", S1: "pw", Cut: intp(r.Range(1, 6))}}})
+				}
+				c.Conns = append(c.Conns, cc)
+				continue
+			}
+			steps = append(steps, Step{Msgs: []pgwire.FMsg{{K: "p", S1: "pw"}}})
+		}
 		nq := r.Range(1, 3)
 		for q := 0; q < nq; q++ {
 			key := fmt.Sprintf("h%d_%d", i, q)
@@ -63,6 +81,10 @@ func genC16(r *Rand, tier string) *Case {
 	if r.Bool() {
 		sc.Holds = append(sc.Holds, Hold{Task: 1 + nconn, Point: "closer.start", Until: 1 + r.Intn(nconn), UntilPoint: r.Pick("cb.stmt", "op.yield", "cb.parse", "cmd.before-admission", "cmd.admitted", "op.row")})
 	}
+	if r.Chance(1, 12) {
+		// Close overtakes the start of Serve
+		sc.CloseFirst = true
+	}
 	c.Sched = sc
 	return c
 }
@@ -89,6 +111,17 @@ func closeOracle(c *Case, r *Result) []Violation {
 		}
 	}
 	var firstRet int64 = -1
+	closeFirst := c.Sched != nil && c.Sched.CloseFirst
+	if closeFirst {
+		// a Close had returned before Serve was even called
+		firstRet = 0
+		if strings.HasPrefix(r.PreClose, "panic") {
+			add("close-panic", "close-panic before-serve", "Close called before Serve panicked: "+r.PreClose)
+		}
+		if !r.ServeDoneBeforeTeardown {
+			add("serve-after-close-does-not-return", "serve-after-close", "a Close call had returned before Serve was called; Serve is still blocked in its accept loop when nothing can run any more")
+		}
+	}
 	for _, s := range rets {
 		if firstRet < 0 || s < firstRet {
 			firstRet = s
@@ -163,6 +196,10 @@ func closeOracle(c *Case, r *Result) []Violation {
 		}
 	}
 	// G2
+	if closeFirst {
+		// (which value a Serve that starts after Close returns is not fixed)
+		return viol
+	}
 	if !panicked && (!r.ServeReturned || r.ServeErr != "") && !r.CloseBlocked {
 		add("serve-return", "serve-return", fmt.Sprintf("Serve returned=%v err=%q after Close", r.ServeReturned, r.ServeErr))
 	}
